@@ -361,7 +361,19 @@ def oracle(case, lines):
     return None
 
 
+def fresh_impl(impl):
+    """the scratch build directory may have been evicted by a concurrent run of another property: rebuild it"""
+    if os.path.exists(impl):
+        return impl
+    bdir, err = nng_build("asan")
+    if bdir is None:
+        return impl
+    w, err = wb_build(bdir, "wb_ledger.c")
+    return w or impl
+
+
 def ledger_run(rep, impl, model, cases, label, stats):
+    impl = fresh_impl(impl)
     diverged, model_bad = [], []
     hist = rep.cov.setdefault("op_histogram", {})
     B = 120
@@ -585,6 +597,7 @@ def gen_device_stress(rng, k):
 
 def balance_run(rep, impl, programs, stats):
     """programs over real transports: judge only what cannot depend on timing"""
+    impl = fresh_impl(impl)
     B = 25
     for b0 in range(0, len(programs), B):
         batch = programs[b0:b0 + B]
@@ -618,6 +631,7 @@ def balance_run(rep, impl, programs, stats):
 
 
 def fini_check(rep, impl, programs, stats, key=None):
+    impl = fresh_impl(impl)
     script = []
     for k, c in enumerate(programs):
         script.append("mark %d" % k); script.extend(c)
@@ -718,7 +732,9 @@ def run(tier, seed, replay=None):
             for _ in range(12 if quick else 400):
                 try:
                     c = g()
-                    bor.append(c[0] if isinstance(c, tuple) else c)
+                    c = c[0] if isinstance(c, tuple) else c
+                    # finite timeouts of the user's own aio are not part of the ledger driver's language (only 0 is)
+                    bor.append([l for l in c if not (l.startswith("aiotmo ") and l.split()[2] != "0")])
                 except Exception:
                     pass
         ledger_run(rep, impl, model, bor, "borrowed", stats)
